@@ -12,22 +12,35 @@ C14 bounded tier: reversal and reverse complement.
     scaffold.reverse() == the model reverse complement of the record streamed for the scaffold.
     Scaffolds with a strand-0 (unknown) fragment are included; a mismatch there is tagged with the known class
     "strand0-reversal" only if the same scaffold without its strand-0 rows passes.
+  * OverlapResult.to_scaffold (the other place a reversal is made: "minus-strand baits reverse the fused overlap
+    result"): for every row sequence from the same pool (all mixes of strands +,-,unknown, tags, gaps) x bait strand
+    +,-,unknown (bait with/without tags, with/without overhangs): under a minus-strand bait the rows of the result ==
+    the model reversal of the rows found (order inverted, every strand negated, intervals / tags / gaps kept) and
+    reversing the result gives the rows found back; under any other bait strand the rows are unchanged; the overlap
+    result itself is left as it was, a second call gives the same rows, name and length are kept.
+    In the streaming part the same scaffolds are also wrapped in an OverlapResult: the record streamed for
+    to_scaffold() under a minus-strand bait == the model reverse complement of the record streamed for the rows,
+    under a plus/unknown bait == that record itself.  The known class is applied to the minus-bait comparison exactly
+    as to scaffold.reverse(); a plus/unknown bait involves no reversal, so a mismatch there is never a known one.
 """
 
 import io
 import itertools
 import random
 
+from tola.assembly.fragment import Fragment
+from tola.assembly.overlap_result import OverlapResult
 from tola.assembly.scaffold import Scaffold
 from tola.fasta.index import FastaIndex, index_fasta_file
 from tola.fasta.simple import reverse_complement, revcomp_bytes_io
 from tola.fasta.stream import FastaStream
 
 from . import fasta_gen as G
-from .common import Collector, row_spec, scaffold_from
+from .common import Collector, row_from, row_spec, scaffold_from
 
 KNOWN = "strand0-reversal"
 MAX_KNOWN_REPORTED = 3
+BAIT_TAGS = [[], ["Painted"], ["Hap2", "Painted", "Unloc"]]
 
 POOL = [
     ["F", "c", 1, 4, 1, []],
@@ -67,12 +80,13 @@ def check_reverse(specs):
     sc = scaffold_from("sc", specs)
     try:
         rev = sc.reverse()
+        after_one = specs_of(sc)
         rev2 = rev.reverse()
     except Exception as e:  # noqa: BLE001
         return [f"Scaffold.reverse raised {e!r}"]
     msgs = []
-    if specs_of(sc) != specs:
-        msgs.append(f"reverse() changed the scaffold it was called on: {specs_of(sc)}")
+    if after_one != specs or specs_of(sc) != specs:
+        msgs.append(f"reverse() changed the scaffold it was called on: rows {specs} became {after_one if after_one != specs else specs_of(sc)}")
     got = specs_of(rev)
     want = model_reverse(specs)
     if got != want:
@@ -84,6 +98,54 @@ def check_reverse(specs):
         msgs.append(f"two reversals give rows {specs_of(rev2)}, original rows are {specs}")
     if not isinstance(rev, Scaffold) or rev.name != sc.name:
         msgs.append(f"reversal returned {type(rev).__name__} named {getattr(rev, 'name', None)!r}")
+    return msgs
+
+
+BAIT_WORD = {1: "a plus-strand bait", -1: "a minus-strand bait", 0: "an unknown-strand bait"}
+
+
+def overlap_from(name, specs, bait_strand, bait_tags=(), overhang=0):
+    """an OverlapResult holding the rows `specs`, found for a bait of the given strand.  overhang k: the rows found
+    stick out k bp on each side of the bait (k < 0: the bait sticks out); neither matters to to_scaffold()."""
+    total = sum(G.spec_length(s) for s in specs)
+    start = 11
+    end = start + total - 1
+    b_start = start + overhang
+    b_end = max(b_start, end - overhang)
+    bait = Fragment("px_1", b_start, b_end, bait_strand, tuple(bait_tags))
+    return OverlapResult(bait, [row_from(s) for s in specs], start, end, name=name, original_name="px_1")
+
+
+def check_overlap(specs, bait_strand, bait_tags=(), overhang=0):
+    specs = [norm(s) for s in specs]
+    what = f"to_scaffold() of an overlap result found for {BAIT_WORD[bait_strand]}"
+    try:
+        ovr = overlap_from("sc", specs, bait_strand, bait_tags, overhang)
+        got_sc = ovr.to_scaffold()
+        after_one = specs_of(ovr)
+        again = ovr.to_scaffold()
+        back = got_sc.reverse() if bait_strand == -1 else None
+    except Exception as e:  # noqa: BLE001
+        return [f"{what} raised {e!r}"]
+    msgs = []
+    got = specs_of(got_sc)
+    if bait_strand == -1:
+        want = model_reverse(specs)
+        if got != want:
+            msgs.append(f"{what} gives rows {got}, expected the reversal of the rows found (order inverted, every strand negated): {want}")
+        if specs_of(back) != specs:
+            msgs.append(f"reversing {what} gives rows {specs_of(back)}, the rows found are {specs}")
+    elif got != specs:
+        msgs.append(f"{what} gives rows {got}, expected the rows found unchanged: {specs}")
+    if after_one != specs or specs_of(ovr) != specs:
+        msgs.insert(0, f"to_scaffold() changed the overlap result it was called on: rows {specs} became {after_one if after_one != specs else specs_of(ovr)}")
+    if specs_of(again) != got:
+        msgs.append(f"a second {what} gives rows {specs_of(again)}, the first gave {got}")
+    want_len = sum(G.spec_length(s) for s in specs)
+    if not isinstance(got_sc, Scaffold) or got_sc.name != "sc":
+        msgs.append(f"{what} returned {type(got_sc).__name__} named {getattr(got_sc, 'name', None)!r}, the overlap result is named 'sc'")
+    elif sum(r.length for r in got_sc.rows) != want_len:
+        msgs.append(f"{what} has rows of total length {sum(r.length for r in got_sc.rows)}, the rows found sum to {want_len}")
     return msgs
 
 
@@ -113,44 +175,77 @@ def check_involution(s):
     return msgs
 
 
-def stream_seq(fi, scaffold, line_length):
+def stream_seq(fi, scaffold, line_length, memo=None):
+    """(name, residues) of the record written for the scaffold.  memo (one per file / buffer size / line length):
+    scaffolds with the same name and rows are streamed once, so that the three ways of reversing one scaffold,
+    which give the same rows when the property holds, do not cost three times the streaming."""
+    key = (scaffold.name, repr(specs_of(scaffold))) if memo is not None else None
+    if key in (memo or ()):
+        return memo[key]
     out = io.BytesIO()
     FastaStream(out, fi, line_length=line_length).write_scaffold(scaffold)
     records, problems = G.parse_written_fasta(out.getvalue())
     if problems or len(records) != 1:
         raise ValueError(f"streamed output is not one record: {problems or len(records)}")
-    return records[0][0], b"".join(records[0][1])
+    res = records[0][0], b"".join(records[0][1])
+    if memo is not None:
+        memo[key] = res
+    return res
 
 
-def reversal_commutes(fi, specs, line_length):
-    """-> message or None"""
+def first_difference(got, want):
+    k = next((i for i in range(min(len(got), len(want))) if got[i] != want[i]), min(len(got), len(want)))
+    return f"first difference at {k + 1}: {got[k : k + 10]!r} vs {want[k : k + 10]!r}"
+
+
+def reversal_commutes(fi, specs, line_length, via="reverse", memo=None):
+    """via "reverse": scaffold.reverse();  via 1 / -1 / 0: to_scaffold() of an OverlapResult holding the same rows,
+    found for a bait of that strand.  -> message or None"""
     sc = scaffold_from("sc", specs)
     try:
-        name1, fwd = stream_seq(fi, sc, line_length)
-        name2, rev = stream_seq(fi, sc.reverse(), line_length)
+        name1, fwd = stream_seq(fi, sc, line_length, memo)
+        other = sc.reverse() if via == "reverse" else overlap_from("sc", specs, via).to_scaffold()
+        name2, rev = stream_seq(fi, other, line_length, memo)
     except Exception as e:  # noqa: BLE001
-        return f"streaming raised {e!r}"
+        return f"streaming raised {e!r}" if via == "reverse" else f"streaming to_scaffold() of the overlap result ({BAIT_WORD[via]}) raised {e!r}"
+    if via != "reverse" and via != -1:
+        want = None
+    elif memo is None:
+        want = G.revcomp(fwd)
+    else:
+        want = memo[("model revcomp", fwd)] = memo.get(("model revcomp", fwd)) or G.revcomp(fwd)
+    if via == "reverse":
+        if name1 != name2:
+            return f"reversed scaffold streamed under the name {name2!r}, original {name1!r}"
+        if rev != want:
+            return (
+                f"streaming the reversed scaffold gives {len(rev)} residues, the reverse complement of streaming the original has "
+                f"{len(want)}; {first_difference(rev, want)}"
+            )
+        return None
+    what = f"to_scaffold() of the overlap result found for {BAIT_WORD[via]}"
     if name1 != name2:
-        return f"reversed scaffold streamed under the name {name2!r}, original {name1!r}"
-    want = G.revcomp(fwd)
-    if rev != want:
-        k = next((i for i in range(min(len(rev), len(want))) if rev[i] != want[i]), min(len(rev), len(want)))
-        return (
-            f"streaming the reversed scaffold gives {len(rev)} residues, the reverse complement of streaming the original has "
-            f"{len(want)}; first difference at {k + 1}: {rev[k : k + 10]!r} vs {want[k : k + 10]!r}"
-        )
+        return f"{what} streamed under the name {name2!r}, the overlap result is named {name1!r}"
+    if via == -1:
+        if rev != want:
+            return (
+                f"streaming {what} gives {len(rev)} residues, the reverse complement of streaming the rows found has "
+                f"{len(want)}; {first_difference(rev, want)}"
+            )
+    elif rev != fwd:
+        return f"streaming {what} gives {len(rev)} residues, streaming the rows found gives {len(fwd)}; {first_difference(rev, fwd)}"
     return None
 
 
-def check_stream(fi, specs, line_length):
+def check_stream(fi, specs, line_length, via="reverse", memo=None):
     """-> (message or None, classes)"""
-    msg = reversal_commutes(fi, specs, line_length)
+    msg = reversal_commutes(fi, specs, line_length, via, memo)
     if msg is None:
         return None, []
     has0 = any(s[0] == "F" and s[4] == 0 for s in specs)
-    if has0:
+    if has0 and via in ("reverse", -1):  # a plus/unknown bait makes no reversal: nothing there can be the known class
         without = [s for s in specs if not (s[0] == "F" and s[4] == 0)]
-        if reversal_commutes(fi, without, line_length) is None:
+        if reversal_commutes(fi, without, line_length, via, memo) is None:
             return msg, [KNOWN]
     return msg, []
 
@@ -167,6 +262,9 @@ def replay(inp):
     if inp["kind"] == "reverse":
         m = check_reverse(inp["rows"])
         return m[0] if m else None
+    if inp["kind"] == "overlap":
+        m = check_overlap(inp["rows"], inp["bait_strand"], inp["bait_tags"], inp["overhang"])
+        return m[0] if m else None
     if inp["kind"] == "table":
         m = check_table()
         return m[0] if m else None
@@ -177,7 +275,7 @@ def replay(inp):
         case = G.FastaCase.from_spec(inp["case"])
         fi = open_case(case, d / "r.fa", inp["buffer"])
         try:
-            return check_stream(fi, inp["rows"], inp["line_length"])[0]
+            return check_stream(fi, inp["rows"], inp["line_length"], inp.get("via", "reverse"))[0]
         finally:
             close_index(fi)
 
@@ -188,10 +286,14 @@ def run(tier, seed, **opts):
     max_rows = 4 if quick else 5
     col = Collector(
         f"reverse: every sequence of 0..{max_rows} rows from a pool of {len(POOL)} (strands +,-,?; tags; gaps incl. length 0); "
+        "overlap result: the same row sequences x bait strand +,-,? (bait tags and overhangs rotating), to_scaffold() against the "
+        "model reversal (minus bait) or the rows unchanged; "
         "complement: 256 byte values, all 1- and 2-byte strings, random byte strings; streaming: FASTA files with mixed-case "
         "IUPAC and non-IUPAC residues in several layouts x scaffolds of 1..3 rows from a pool of intervals x strands +,-,? "
-        "and gaps x buffer sizes x line lengths, and random scaffolds over random files; non-trivial = distinct input with at "
-        "least one fragment row (reverse, streaming) / at least one byte (complement)"
+        "and gaps x buffer sizes x line lengths, and random scaffolds over random files, each reversed three ways: "
+        "scaffold.reverse(), to_scaffold() of an overlap result with a minus-strand bait (both: reverse complement expected), "
+        "to_scaffold() with a plus- or unknown-strand bait (same record expected); non-trivial = distinct input with at "
+        "least one fragment row (reverse, overlap result, streaming) / at least one byte (complement)"
     )
     known_seen = 0
 
@@ -204,6 +306,22 @@ def run(tier, seed, **opts):
             if msgs:
                 col.fail(msgs[0], inp)
             col.case(("reverse", combo), nontrivial=any(r[0] == "F" for r in rows), sample=inp if combo == (0, 5, 2, 1) else None)
+        if col.full:
+            break
+    # 1b. OverlapResult.to_scaffold: the same row sequences x bait strand; bait tags and overhangs (which must not
+    #     matter) rotate with the case
+    for n in range(0, max_rows + 1):
+        for combo in itertools.product(range(len(POOL)), repeat=n):
+            rows = [POOL[i] for i in combo]
+            for bait_strand in (1, -1, 0):
+                bait_tags = BAIT_TAGS[(sum(combo) + bait_strand) % len(BAIT_TAGS)]
+                overhang = (0, 2, -3)[(sum(combo) + n + bait_strand) % 3]
+                msgs = check_overlap(rows, bait_strand, bait_tags, overhang)
+                inp = {"kind": "overlap", "rows": rows, "bait_strand": bait_strand, "bait_tags": bait_tags, "overhang": overhang}
+                if msgs:
+                    col.fail(msgs[0], inp)
+                col.case(("overlap", combo, bait_strand), nontrivial=any(r[0] == "F" for r in rows),
+                         sample=inp if (combo, bait_strand) == ((0, 5, 1, 2), -1) else None)
         if col.full:
             break
     # 2. complement table and involution
@@ -251,17 +369,20 @@ def run(tier, seed, **opts):
                                 continue
                             rows = [pool[i] for i in combo]
                             ll = (60, 3, 7)[(sum(combo) + n) % 3]
-                            msg, classes = check_stream(fi, rows, ll)
-                            inp = {"kind": "stream", "case": spec, "buffer": bs, "rows": rows, "line_length": ll}
-                            if msg:
-                                if KNOWN in classes:
-                                    known_seen += 1
-                                    if known_seen <= MAX_KNOWN_REPORTED:
+                            # scaffold.reverse(), a minus-strand bait, and one of plus / unknown bait
+                            memo = {}
+                            for via in ("reverse", -1, (1, 0)[(sum(combo) + bs) % 2]):
+                                msg, classes = check_stream(fi, rows, ll, via, memo)
+                                inp = {"kind": "stream", "case": spec, "buffer": bs, "rows": rows, "line_length": ll, "via": via}
+                                if msg:
+                                    if KNOWN in classes:
+                                        known_seen += 1
+                                        if known_seen <= MAX_KNOWN_REPORTED:
+                                            col.fail(msg, inp, classes)
+                                    else:
                                         col.fail(msg, inp, classes)
-                                else:
-                                    col.fail(msg, inp, classes)
-                            col.case(("stream", case.key(), bs, combo, ll), nontrivial=any(r[0] == "F" for r in rows),
-                                     sample=inp if (bs, combo) == (3, (1, 17, 6)) else None)
+                                col.case(("stream", case.key(), bs, combo, ll, via), nontrivial=any(r[0] == "F" for r in rows),
+                                         sample=inp if (bs, combo, via) in ((3, (1, 17, 6), "reverse"), (3, (4, 19, 0), -1)) else None)
                 finally:
                     close_index(fi)
                     G.remove_with_caches(path)
@@ -291,26 +412,28 @@ def run(tier, seed, **opts):
                             strand = 0 if rng.random() < p0 else rng.choice((1, -1))
                             rows.append(["F", r.name, s, e, strand, []])
                     ll = rng.choice((60, 60, 1, 5, 61))
-                    msg, classes = check_stream(fi, rows, ll)
-                    inp = {"kind": "stream", "case": case.spec(), "buffer": bs, "rows": rows, "line_length": ll}
-                    if msg:
-                        if KNOWN in classes:
-                            known_seen += 1
-                            if known_seen <= MAX_KNOWN_REPORTED:
+                    memo = {}
+                    for via in ("reverse", -1, (1, 0)[(k + _rep) % 2]):
+                        msg, classes = check_stream(fi, rows, ll, via, memo)
+                        inp = {"kind": "stream", "case": case.spec(), "buffer": bs, "rows": rows, "line_length": ll, "via": via}
+                        if msg:
+                            if KNOWN in classes:
+                                known_seen += 1
+                                if known_seen <= MAX_KNOWN_REPORTED:
+                                    col.fail(msg, inp, classes)
+                            else:
                                 col.fail(msg, inp, classes)
-                        else:
-                            col.fail(msg, inp, classes)
-                    col.case(("stream", case.key(), bs, repr(rows), ll), nontrivial=any(r[0] == "F" for r in rows))
+                        col.case(("stream", case.key(), bs, repr(rows), ll, via), nontrivial=any(r[0] == "F" for r in rows))
             finally:
                 close_index(fi)
                 G.remove_with_caches(path)
     return col.result(
         bounds=(
-            f"reverse: {len(POOL)}-row pool, sequences of 0..{max_rows}; complement: exhaustive over 256 values and 65792 short strings, "
+            f"reverse: {len(POOL)}-row pool, sequences of 0..{max_rows}; overlap result: the same sequences x 3 bait strands; complement: exhaustive over 256 values and 65792 short strings, "
             f"{2000 if quick else 50000} random strings up to 200 bytes; streaming: 2-record file (32 and 7 residues) in {len(lays)} layouts, "
             "18 fragment rows + 3 gaps, all 1- and 2-row scaffolds and a fixed share of the 3-row ones, buffers "
             + ("1,3,5,250000" if quick else "1,2,3,4,5,7,8,31,32,33,250000")
-            + f"; {150 if quick else 5000} random files x 8 random scaffolds"
+            + f"; {150 if quick else 5000} random files x 8 random scaffolds; every streamed scaffold via reverse(), minus bait, plus-or-unknown bait"
         ),
         exhaustive=False,
         known_class_failures_seen=known_seen,
